@@ -38,6 +38,160 @@ CHECKS = {
             'of the drawn bytes in the decoded id', '4/C17', 'idgen'),
 }
 
+
+S = 'DESIGN.md section 4/'
+CHECKS.update({
+    'C03': ('exploration',
+            'offline history checker (unique message ids) over the delivery '
+            'log recorded at the client boundary; real servers under a '
+            'deterministic virtual-time scheduler / virtual asyncio loop; '
+            'seeded random schedules + stateless DFS over all cooperative '
+            'schedules of a small scenario',
+            'At-most-once, recipient, order, lone-poll completeness, '
+            'NOOP-only-after-upgrade-began and drain completeness oracles on '
+            'thousands of generated histories per server, under seeded random '
+            'cooperative schedules (threaded) / seeded injection points '
+            '(asyncio), plus exhaustive enumeration of every cooperative '
+            'schedule of one small upgrade scenario.',
+            'harness patch points (server._async, engineio.socket.time, '
+            'virtual loop); reference client; schedules explored are the '
+            'cooperative ones', 'C03', 'simT+simA'),
+    'C04': ('exploration',
+            'reference dispatcher vs application handler log at the boundary; '
+            'seeded bodies over all ten type digits; both servers, both '
+            'handler modes',
+            'Every generated body / frame sequence is judged by a reference '
+            'dispatcher written from the statement (exactly-once, order, '
+            'refusal by type, whole-body rejection, dead sessions).',
+            'same patch points as C03; a poll is kept pending so that error '
+            'paths are not masked by known finding K1', 'C04', 'simT+simA'),
+    'C05': ('fault_enumeration',
+            'online event automaton per session + end-cause ledger over '
+            'generated histories; systematic pairs of simultaneous end causes',
+            'Automaton (connect first, one disconnect, nothing after) and '
+            'reason ledger on seeded histories with every end cause, handler '
+            'exceptions injected, final silence past all timeouts, then '
+            'probes of dead ids; all ordered pairs of six end causes at one '
+            'virtual instant on every transport mode under several schedules.',
+            'pre-emptive interleavings inside close() only in the thorough '
+            'pre-emption tier; reasons of timing-caused ends are a set',
+            'C05', 'simT+simA'),
+    'C06': ('fault_enumeration',
+            'trace automaton over the upgrade socket + transport() samples + '
+            'post-failure drain and re-upgrade; enumeration of frame pairs x '
+            'closure points x configuration',
+            'Fault enumeration of the handshake: 12x12 frame pairs x 4 closure '
+            'points x 2 closure conventions x 5 concurrent activities x '
+            'allow_upgrades x transports x 2 servers (69 120 cells, all in '
+            'thorough).', 'probe = text frame 2probe, UPGRADE = any type-5 '
+            'packet', 'C06', 'simT+simA'),
+    'C07': ('exploration',
+            'timing checker on virtual timestamps (PING schedule, accuracy, '
+            'detection bound, send-after-deadline, starved poll)',
+            'Timelines of >= 20 heartbeat cycles over a grid of interval / '
+            'timeout / grace / session count / monitor / transport mix with '
+            'PONG delays up to timeout-2^-10, then seeded silent peers; all '
+            'verdicts in virtual time.', 'virtual clock patch points; PONG '
+            'delay exactly equal to the timeout is not generated', 'C07',
+            'simT+simA'),
+    'C08': ('fault_enumeration',
+            'client event automaton + public-state probes + task-termination '
+            'check against a scripted server; enumeration of server faults x '
+            'enders x cycles',
+            'Every server behaviour at connect x transport x probe outcome x '
+            'way of ending x 1..3 connect cycles for both real clients.',
+            'fake transports at the requests / websocket-client / aiohttp '
+            'call boundary honour time-outs in virtual time', 'C08',
+            'cliT+cliA'),
+    'C09': ('exploration',
+            'conversation checker at the scripted-server boundary (unique ids '
+            'both ways, URL oracle, probe automaton, silence bound)',
+            'Seeded conversations (bursts, PINGs with data, odd packets, '
+            'probe variants, silence) and a URL grammar for both clients.',
+            'threaded client under the FIFO schedule for order; fakes as in '
+            'C08', 'C09', 'cliT+cliA'),
+    'C10': ('exploration',
+            'two-sided exactly-once/order/equality checker over real client '
+            '<-> real server conversations, four implementation pairs',
+            'Real Client/AsyncClient connected to real Server/AsyncServer '
+            '(asyncio side through the real ASGI adapter) under one virtual '
+            'clock: bursts of 1..40 each way, 31-cycle idle periods, either '
+            'side ending, three transport choices, four heartbeat settings.',
+            'cross pairs run an asyncio loop as one task of the thread '
+            'scheduler (bridge); fake transports stand in for the network',
+            'C10', 'pairs'),
+    'C11': ('exploration',
+            'OPEN/401/cookie reference on every cell of a configuration grid; '
+            'advertised upgrade decided by performing the probe handshake',
+            'Exhaustive configuration grid (186 k cells in thorough) on both '
+            'servers and three open kinds; rejected ids probed through every '
+            'entry point.', 'times compared at |d| < 1 ms', 'C11',
+            'simT+simA'),
+    'C12': ('exploration',
+            'reference admission function + before/after state snapshots of '
+            'the real server around every refused request',
+            'Full cross product method x EIO x transport x sid kind x headers '
+            'x JSONP x configured transports x server (141 k cells in '
+            'thorough), each against a fresh session population.',
+            'OPTIONS and a few ambiguous cells are status don\'t-care',
+            'C12', 'simT+simA'),
+    'C13': ('exploration',
+            'reference origin predicate + spies (session-table access '
+            'recorder, id generator counter, handler log) + header oracle',
+            'Full cross product of origin configurations, credentials, Origin '
+            'variants (near misses of every allowed value), Host / scheme / '
+            'X-Forwarded shapes, request kinds and servers.',
+            'only the refusal direction is judged', 'C13', 'simT+simA'),
+    'C14': ('exploration',
+            'instrumented body reader + handler payload sizes + liveness '
+            'around every limit',
+            'Lengths M-2..M+2, 0, 1, 2M, 10M for limits 1..10^6, text and '
+            'binary, declared vs actual length, six delivery paths, packet '
+            'counts 0..18 with limits 1 and 16, both servers.',
+            'ASCII at the boundary so bytes = characters', 'C14',
+            'simT+simA'),
+    'C15': ('fault_enumeration',
+            'gateway-protocol monitors (wsgiref.validate + recorder, ASGI '
+            'automaton) + scheduler hang detector with stack witness + '
+            'escaped-exception capture',
+            'Method x session state x body fault x transport x JSONP x server '
+            'and the API calls in every session state; completion is decided '
+            'as bounded progress in virtual time.',
+            'WebSocket handshake requests are exempt from the HTTP response '
+            'oracle', 'C15', 'simT+simA'),
+    'C16': ('exploration',
+            'API probes on dead ids bracketed by snapshots + session tokens + '
+            'table-vs-reference-liveness at quiescent checkpoints',
+            'Long generated runs (up to 2000 actions / 40 live sessions) with '
+            'every end cause and clients vanishing at every point; table '
+            'compared with reference liveness after bounded sweeps.',
+            'disconnect() of all clients not used (K1 would falsify the '
+            'reference liveness)', 'C16', 'simT+simA'),
+    'C18': ('exploration',
+            'lock-step differential replay of one history on both real '
+            'servers, compared at every quiescent point',
+            'Thousands of generated histories over the union alphabet; event, '
+            'delivery, status and liveness streams compared after every '
+            'action.', 'threaded side under the canonical FIFO schedule; '
+            'timing-caused ends compared only as "both within the bound"',
+            'C18', 'simT+simA'),
+    'C19': ('exploration',
+            'response decoder at the client boundary (Content-Encoding undo + '
+            'hand-written JavaScript string-literal evaluator) vs the packets '
+            'the scenario queued',
+            'Seeded payload alphabets x Accept-Encoding shapes x compression '
+            'x thresholds around the measured body size x JSONP index x open '
+            'and poll responses x both servers.',
+            'offered = token with q absent or > 0', 'C19', 'simT+simA'),
+    'C20': ('exploration',
+            'reference router + downstream spies + sys.addaudithook open '
+            'recorder (containment) + ASGI lifespan automaton',
+            'Exhaustive request paths to depth 4 over an 11-segment '
+            'vocabulary (1.8 M requests in thorough) x 11 mappings x endpoints '
+            'x wrapped app x both gateways; all lifespan callback shapes.',
+            'tree without symlinks', 'C20', 'mw'),
+})
+
 PENDING = {}
 
 
@@ -86,6 +240,25 @@ def main():
             {'name': 'idgen', 'path': 'vf/checks/c17.py',
              'serves_properties': ['C17'],
              'kind_free_text': 'issue monitor with injected random source'},
+            {'name': 'simT+simA', 'path': 'vf/simt.py',
+             'serves_properties': ['C03', 'C04', 'C05', 'C06', 'C07', 'C11',
+                                   'C12', 'C13', 'C14', 'C15', 'C16', 'C18',
+                                   'C19'],
+             'kind_free_text': 'real threaded server under a deterministic '
+             'virtual-time scheduler (vf/vsched.py) and real asyncio server '
+             'behind the real ASGI adapter on a virtual loop (vf/vloop.py, '
+             'vf/sima.py), driven by a reactive reference client (vf/hist.py)'},
+            {'name': 'cliT+cliA', 'path': 'vf/cli.py',
+             'serves_properties': ['C08', 'C09'],
+             'kind_free_text': 'real clients on the same engines against a '
+             'scripted server through fake transports'},
+            {'name': 'pairs', 'path': 'vf/cli.py',
+             'serves_properties': ['C10'],
+             'kind_free_text': 'real client <-> real server, incl. bridge '
+             '(asyncio loop as a scheduler task)'},
+            {'name': 'mw', 'path': 'vf/checks/c20.py',
+             'serves_properties': ['C20'],
+             'kind_free_text': 'gateway middleware with spies and audit hook'},
         ],
         'checks': checks,
         'not_applicable': na,
